@@ -60,7 +60,7 @@ ASSUMPTIONS = [
     "a kept 'head' is compared modulo bytes 8-11 (checkSumAdjustment is owned by the container writer)",
     "the re-save of a font with a raw fallback table is checked with recalcBBoxes=False and recalcTimestamp=False (save must not need to derive other tables from the undecodable one); with the default recalculation, save() raises in maxp/hhea/head recalc when glyf/hmtx/CFF is raw - counted under fallback:info:default-recalc-save:*, not asserted",
     "tables that save() decoded and recompiled (dependencies of the accessed table) are not compared; tables never decoded and tables kept raw must be byte-identical",
-    "worker address space is capped at 4 GB and limits are CPU-time based; hitting a limit is counted as inconclusive, never as a violation",
+    "worker address space is capped at 1.5 GB and limits are CPU-time based; hitting a limit is counted as inconclusive, never as a violation",
     "ufoLib is exercised on the repository's own fontTools.misc.filesystem backend (third-party 'fs' import blocked in the worker), the default for users without the optional package",
     "reading files named by fea include()/TTX src=/designspace filename is documented behaviour; only evaluation as code and writes outside the requested location are violations",
     "eval() calls in otBase/otConverters/otTables evaluate expressions from the static otData tables, not from input; they are outside the canary oracle unless a canary reaches them",
@@ -433,7 +433,7 @@ def fallback_case(acc, relfile, tag, fault, case, do_save_when_decoded=False, in
     # twin A: does decompile raise (eager mode)?
     raised = None
     try:
-        with time_limit(20):
+        with time_limit(8):
             fA = TTFont(io.BytesIO(blob), lazy=False)
             fA[stag]
     except CaseTimeout:
@@ -443,7 +443,7 @@ def fallback_case(acc, relfile, tag, fault, case, do_save_when_decoded=False, in
         raised = e
     # twin B: errors ignored
     try:
-        with time_limit(20):
+        with time_limit(8):
             # recalcBBoxes/recalcTimestamp off: save() must not try to derive other tables' contents from the
             # undecodable one (that it cannot is outside the statement, DESIGN 4a i); see _recalc_info
             fB = TTFont(io.BytesIO(blob), ignoreDecompileErrors=True, lazy=False, recalcTimestamp=False, recalcBBoxes=False)
@@ -572,10 +572,23 @@ def run_fallback_job(acc, job):
     for tag, payload in tabs:
         if job.get("tags") and tag.decode("latin-1") not in job["tags"]:
             continue
+        timeouts = 0
         for fault in [("none",)] + fallback_faults(payload, rnd, job["nflips"]):
             n += 1
+            if timeouts >= 2:
+                # a table whose damaged forms keep the decoder busy beyond the CPU limit (a count field blown up to tens of
+                # thousands of records): two such cases are recorded as inconclusive, the rest of this table's faults
+                # is skipped so that the job stays within its budget
+                acc.label("fallback:skipped-after-two-timeouts")
+                continue
             case = {"space": "fallback", "file": relfile, "tag": tag, "fault": list(fault)}
+            import time as _time
+
+            _t0 = _time.time()
             out = fallback_case(acc, relfile, tag, fault, case, do_save_when_decoded=(n % 5 == 0 or fault[0] == "none"), info_recalc=(n % 3 == 0))
+            if out == "timeout" or _time.time() - _t0 > 10:
+                timeouts += 1
+                acc.label("fallback:slow-or-timed-out-case")
             if out == "no-change":
                 continue
             if fault[0] == "none" and not out.startswith("decoded"):
@@ -1328,7 +1341,7 @@ def _limit_memory():
     import resource
 
     soft, hard = resource.getrlimit(resource.RLIMIT_AS)
-    want = 4 << 30
+    want = 3 << 29  # 1.5 GB
     if soft == resource.RLIM_INFINITY or soft > want:
         try:
             resource.setrlimit(resource.RLIMIT_AS, (want, hard))
